@@ -6,10 +6,12 @@
    C10_pop_removes_at_position: on a path of keys and indices (unique keys and identity labels) a successful
    pop_match is positional: the parent path resolves to a node y, the last step names the member the returned
    match holds, and the new document is the old one with y replaced by y without that member (`remove`:
-   del d[k] / del l[i]) at that position; nothing else changes. *)
+   del d[k] / del l[i]) at that position; nothing else changes.  C10_pop_from_a_match_at_position: the same when the data
+   source is a Match (pop(p, match)) that is a current view of the document: the position is that of the Match
+   extended by the parent path. *)
 From Coq Require Import List ZArith String Bool PArith.
 From TP Require Import Json PyPrim Machine Api Mutate SpecSet.
-From TP.proofs Require Import MutateProofs BelowLemmas AssignPosition.
+From TP.proofs Require Import RefineBase MutateProofs BelowLemmas RoundTrip AssignPosition.
 Import ListNotations.
 
 Theorem C10_unchanged : forall B H depth src doc p must tr r doc' es,
@@ -48,3 +50,12 @@ Theorem C10_pop_removes_at_position :
                       remove v y = Some y' /\ doc' = put_at doc pp y'.
 Proof. exact pop_match_position. Qed.
 Print Assumptions C10_pop_removes_at_position.
+
+Theorem C10_pop_from_a_match_at_position :
+  forall (B H : positive) (depth : nat) doc (m0 : @tm json) (p : list (vertex hp)) must tr (m : @tm json) doc' es,
+    kipath p = true -> uniq doc -> NoDup (labels doc) -> wf m0 -> reach doc (abs m0) ->
+    pop_match B H depth (SrcMatch m0) doc p must tr = (Ok (Some m), doc', es) ->
+    exists pp v y y', p = pp ++ [v] /\ lookup doc (steps_of (abs m0) ++ pp) = Some y /\ child_at v y = Some (tdata m) /\
+                      remove v y = Some y' /\ doc' = put_at doc (steps_of (abs m0) ++ pp) y'.
+Proof. exact pop_match_position_from. Qed.
+Print Assumptions C10_pop_from_a_match_at_position.
